@@ -1048,9 +1048,9 @@ fn weird_addr(e: &Exec, rng: &mut Rng, k: usize) -> String {
     let local = e.world.local;
     let host = *rng.pick(&[
         "/ip4/10.0.0.7", "/ip4/0.0.0.0", "/ip4/127.0.0.1", "/ip4/8.8.4.4", "/ip6/::1", "/ip6/::", "/ip6/2001:db8::7", "/dns/example.org", "/dns4/example.org",
-        "/dns6/example.org", "/ip4/255.255.255.255", "/unix/tmp", "/ip4/192.168.1.5",
+        "/dns6/example.org", "/ip4/255.255.255.255", "/unix/tmp", "/ip4/192.168.1.5", "/dnsaddr/example.org", "/dnsaddr/example.org", "/memory/1234", "/ip6zone/eth0/ip6/fe80::1",
     ]);
-    let tr = *rng.pick(&["/tcp/1234", "/tcp/4444", "/tcp/5555", "/tcp/6666", "/tcp/0", "/udp/1234", "/udp/1234/quic-v1", "/tcp/80/ws", "/tcp/443/wss", "/tcp/1/tcp/2", ""]);
+    let tr = *rng.pick(&["/tcp/1234", "/tcp/4444", "/tcp/5555", "/tcp/6666", "/tcp/0", "/udp/1234", "/udp/1234/quic-v1", "/tcp/80/ws", "/tcp/443/wss", "/tcp/1/tcp/2", "/sctp/7", "/tcp/9/tls", ""]);
     let tail = match rng.usize(9) {
         0 => String::new(),
         1 => format!("/p2p/{p}"),
